@@ -5,6 +5,7 @@ import (
 	"crypto/sha256"
 	"fmt"
 	"math/rand"
+	"os"
 	"sort"
 	"strings"
 	"testing"
@@ -369,6 +370,7 @@ func TestChild(t *testing.T) {
 		before := snap(x)
 		verdict := ""
 		detail := ""
+		reopen := false
 		w.InFlight(fmt.Sprintf("[%s via_server=%v mutations=%v] %s", class, viaServer, muts, in))
 		if viaServer {
 			spec.Op.ElectionId = elec
@@ -384,7 +386,8 @@ func TestChild(t *testing.T) {
 				goto done
 			case res.RPCErr != nil:
 				verdict = "rpc-error"
-				worker = open("worker") // the RPC ended cleanly with a status: reconnect
+				detail = fmt.Sprintf("rpcErr=%v results=%v", res.RPCErr, res.Results)
+				reopen = true // the RPC ended cleanly with a status: reconnect after the state comparison
 				cnt["rpc_errors"]++
 			default:
 				detail = fmt.Sprintf("results=%v", res.Results)
@@ -433,6 +436,16 @@ func TestChild(t *testing.T) {
 		}
 		vkinds[class+"->"+verdict] = true
 		after := snap(x)
+		if dbg := os.Getenv("VERIF_CHILD_DEBUG"); dbg != "" {
+			f, _ := os.OpenFile(dbg, os.O_APPEND|os.O_CREATE|os.O_WRONLY, 0o644)
+			fmt.Fprintf(f, "%s i=%d class=%s server=%v verdict=%s detail=%s diff=%s in=%.300s\n", sp.Case, i, class, viaServer, verdict, detail, before.diff(after), in)
+			f.Close()
+		}
+		if reopen {
+			// a new session announcing the same id becomes the primary (held operations of the
+			// previous primary are dropped at that point, outside the compared window)
+			worker = open("worker")
+		}
 		detail = fmt.Sprintf("%s (held before=%s after=%s)", detail, before.held, after.held)
 		d := before.diff(after)
 		mustFail := class != "mutated"
